@@ -137,6 +137,10 @@ func (c *c20Gen) stmt() c20Stmt {
 		return multi("triple-quoted", lines, allBut(3))
 	case 8:
 		lines := []string{fmt.Sprintf("x = %d + \\", id), "    2"}
+		if g.Chance(1, 3) {
+			// a backslash-newline inside a single-quoted string joins the lines too
+			lines = []string{fmt.Sprintf("s = 'a%d\\", id), "cd'"}
+		}
 		return multi("backslash", lines, allBut(2))
 	case 9:
 		return one("runtime-error", g.Str("1 // 0", "undefined_name", "[][1]", "log.append(1 // 0)", "int('z')"))
@@ -159,7 +163,8 @@ func (c *c20Gen) stmt() c20Stmt {
 		st := multi("class", lines[:4], []bool{true, false, true, false})
 		return st
 	default:
-		return one("comment", "# just a comment")
+		// lines without any statement: a comment, an indented comment, white space only - the primary prompt stays
+		return one("comment", g.Str("# just a comment", "# just a comment", "   # an indented comment", "   ", "\t", " "))
 	}
 }
 
